@@ -43,7 +43,7 @@ def setup(tmp, seed, names):
     for i, c in enumerate(qs):
         env['qfiles'].append(W.write_fasta(os.path.join(tmp, 'q', f'query{i}.fasta'), c))
     for i, c in enumerate(rs):
-        env['rfiles'].append(W.write_fasta(os.path.join(tmp, 'r', f'ref{i}.fa' + ('.gz' if i == 1 else '')), c, gz=(i == 1)))
+        env['rfiles'].append(W.write_fasta(os.path.join(tmp, 'r', f'ref{i}.fa' + ('.gz' if i == 1 else '')), c, gz=(i == 1), members=2))
     for name in names:
         k, p = PARAMS[name]
         ks = KmerSpec(k, p)
